@@ -44,6 +44,9 @@ FOCUS = {
     "tagchars": ["<b", "<br", "</b", " a", "=", '"x"', "'y'", "_", ":", "-", "/", ">", "<", "1"],
     # single braces / brackets around the inside-out encoder's regexes (-{}-, }{, {|..|} inside arguments)
     "braces": ["{", "}", "{{", "}}", "|", "-{", "}-", "a", "\n", "[", "]", "<nowiki/>", "{|", "|}"],
+    # markup nested two levels inside <pre> / <nowiki/>-disabled calls: cookies whose arguments hold further cookies
+    # reach the tree as text and must be expanded back completely
+    "pre": ["<pre>", "</pre>", "{{a|", "{{b}}", "}}", "[[a|", "]]", "{{{b}}}", "<nowiki/>", "\n", "a", "{{{c|"],
     "urlchars": ["http://x.y", "https://", "//", "[", "]", " ", "a", ".", ",", "?", "=", "|", "<", "\n"],
 }
 
